@@ -241,7 +241,7 @@ var c18Special = []rune{' ', ' ', '\t', '\n', '\r', '\v', '\f', 0x85, 0xA0, 0x16
 	'\'', '\'', '"', '"', '`', '`', '\\', '\\', '/', '*', '-', '-', '@', '%', '#', '$', '{', '}', ';', ':', ':', '=', '<', '>', '!', '|',
 	'(', ')', ',', '.', '?', '+', '^', '[', ']', '~', '&', '_', '0', '1', '9', 'e', 'E', 'a', 'z', 'A', 'Z', 'n', 't', 'r',
 	0x17F, 0x212A, 0x131, 0x130, 0xAA, 0xB5, 0xBA, 0xC0, 0xD7, 0xF7, 0xFF, 0x100, 0x3042, 0x4E2D, 0x661, 0x966, 0xFF11, 0xFF21, 0x2160, 0xB2, 0xBD,
-	0xE000, 0xE002, 0xE003, 0xE004, 0xE005, 0xE006, 0xE00C, 0xE010, 0xE012, 0xE0FF, 0xF8FF, 0xFFFD, 0xFEFF, 0x1F600, 0x1D400, 0x1D7D8, 0x10FFFF, 0, 1, 7, 8, 0x7F}
+	0xE000, 0xE002, 0xE003, 0xE004, 0xE005, 0xE006, 0xE00C, 0xE010, 0xE012, 0xE0FF, 0xF8FF, 0xFFFD, 0xFEFF, 0x1F600, 0x1D400, 0x1D7D8, 0x10FFFF, 0, 1, 7, 8, 0x7F, 0x1B, 0x1B, 0x0E, 0x1A, 0x1C, 0x1F, 0x02, 0x10, 0x9B}
 
 func c18RandRune(r *rand.Rand) rune {
 	switch r.Intn(10) {
